@@ -494,5 +494,7 @@ def check_c12(model, rep, tier):
     r_opt_deref(model, rep)
     r_add_refusals(model, rep)
     r_keys(model, rep)
+    from .regexes import r_nevra_format
+    r_nevra_format(model, rep)
     r_uid_parse(model, rep)
     r_relative_to(model, rep)
